@@ -158,6 +158,11 @@ impl Ctx {
                         (n, name.to_string(), "badhtlc".into()),
                         Sigs { commit: g.commit, htlc: vec![g.commit; g.htlc.len()] },
                     );
+                    // good commitment signature, fewer HTLC signatures than HTLC outputs
+                    self.sigs.insert(
+                        (n, name.to_string(), "shorthtlc".into()),
+                        Sigs { commit: g.commit, htlc: g.htlc[..g.htlc.len() - 1].to_vec() },
+                    );
                 }
             }
         }
